@@ -20,13 +20,15 @@ SessPlain ==
                \* a count expression that raises half-way for n = 0: a failed parse must not disturb later ones
                C3 |-> Class(DefaultOpts, <<U1("n"), RepCountF("r", U1("e"), SzExpr(EBin("add", EC(1), EBin("floordiv", EC(2), EF("n"))), "deferred"), NoCond, 0)>>),
                \* a repeated field that a parse skips (its condition is false): every such packet gets a list of its own
-               C4 |-> Class(DefaultOpts, <<U1("t"), RepCountF("r", U1("e"), SzConst(1), SzField("t"), 0)>>)],
-     classes |-> {"C0", "C1", "C3", "C4"},
+               C4 |-> Class(DefaultOpts, <<U1("t"), RepCountF("r", U1("e"), SzConst(1), SzField("t"), 0)>>),
+               \* a reference to a class that itself holds a nested packet and a list (two constructions share nothing, at any depth)
+               C5 |-> Class(DefaultOpts, <<RefF("w", "C1")>>)],
+     classes |-> {"C0", "C1", "C3", "C4", "C5"},
      raws |-> [C0 |-> {<<0, 1, 2>>, <<1, 9, 1, 2>>, <<2, 9>>}, C1 |-> {<<0, 1, 2>>, <<1, 1, 2, 3, 4>>},
-               C3 |-> {<<0, 5>>, <<1, 5, 6, 7>>, <<2, 5, 6>>}, C4 |-> {<<0>>, <<1, 5>>}],
-     kws |-> [C0 |-> {<<>>, <<[n |-> "t", v |-> IntV(1)]>>}, C1 |-> {<<>>}, C3 |-> {<<>>}, C4 |-> {<<>>}],
+               C3 |-> {<<0, 5>>, <<1, 5, 6, 7>>, <<2, 5, 6>>}, C4 |-> {<<0>>, <<1, 5>>}, C5 |-> {<<0, 1, 2>>}],
+     kws |-> [C0 |-> {<<>>, <<[n |-> "t", v |-> IntV(1)]>>}, C1 |-> {<<>>}, C3 |-> {<<>>}, C4 |-> {<<>>}, C5 |-> {<<>>}],
      sets |-> [C0 |-> {[n |-> "t", v |-> IntV(2)], [n |-> "r", v |-> ListV(<<IntV(1), IntV(2)>>)]}, C1 |-> {[n |-> "a", v |-> IntV(0)]},
-               C3 |-> {[n |-> "n", v |-> IntV(1)]}, C4 |-> {}],
+               C3 |-> {[n |-> "n", v |-> IntV(1)]}, C4 |-> {}, C5 |-> {}],
      appendval |-> IntV(4),
      \* the classes are defined locally (prototypes are cloned by deep copy) and the user keeps the prototype instance
      local |-> TRUE, protos |-> {[cls |-> "C0", f |-> "s", a |-> "x", v |-> 99], [cls |-> "C0", f |-> "s", a |-> "y", v |-> 98]}]
